@@ -81,8 +81,12 @@ def _conj():
     S = np.diag([2.0, 1.0, 4.0, 1.0])
     H = np.eye(4)
     H[0, 1], H[2, 0] = 1.0, -1.0                        # integer shear, determinant 1
+    # frames placed far from the origin: conjugation by a translation of ~10^8 leaves rotations as they are and
+    # turns <<k,x,y>> (k # 0) into a matrix whose translation is of that size (integers < 2^53: still exact)
+    F = np.eye(4)
+    F[0, 3], F[1, 3] = FAR, 3 * FAR
     out = []
-    for C in (np.eye(4), P, P @ P, np.eye(4), S, H):
+    for C in (np.eye(4), P, P @ P, np.eye(4), S, H, F):
         Ci = np.linalg.inv(C)
         Ci = np.round(Ci * 4) / 4
         if not np.array_equal(C @ Ci, np.eye(4)):
@@ -91,8 +95,10 @@ def _conj():
     return out
 
 
-REPS = ("rot_z", "rot_x", "rot_y", "mirror", "scaled", "sheared")
+REPS = ("rot_z", "rot_x", "rot_y", "mirror", "scaled", "sheared", "far")
 RIGID_REPS = (0, 1, 2)
+FAR = float(2 ** 27)
+FAR_REP = 6
 _CONJ = None
 
 
@@ -118,6 +124,7 @@ def rep(m, r):
 
 
 FORMS_ANY = ("nd64", "list", "f32", "fortran", "strided", "int_or_tuple")
+FORMS_FAR = tuple(f for f in FORMS_ANY if f != "f32")       # 2^29 + 1 is not a float32
 FORMS_RIGID = FORMS_ANY + ("quat", "quat_neg_scaled", "axis_angle", "axis_scaled_neg")
 
 
@@ -180,7 +187,9 @@ COLLIDING = {"w": "world", "a": 0, "b": "", "c": -1, "d": -2}
 
 
 def close(A, B):
-    return A is not None and np.shape(A) == (4, 4) and np.allclose(A, B, rtol=0, atol=1e-9)
+    """equal up to 1e-10 of the magnitude of the expected matrix (entries are integers / dyadic rationals; the
+    slack is for quaternion / axis-angle spellings and for other orders of evaluating the same product)"""
+    return A is not None and np.shape(A) == (4, 4) and np.allclose(A, B, rtol=0, atol=1e-10 * max(1.0, float(np.abs(B).max())))
 
 
 def do_get(g, a, b, how=0):
@@ -197,13 +206,14 @@ def do_get(g, a, b, how=0):
         return None, None, type(e).__name__
 
 
-def replay_one(SceneGraph, beh, variant, stats, colliding=False):
+def replay_one(SceneGraph, beh, variant, stats, colliding=False, force_rep=None):
     """Replay one TLC behaviour. Returns list of failures (dicts)."""
     fails = []
     rnd = random.Random(variant)
-    r = variant % len(REPS)
+    r = variant % len(REPS) if force_rep is None else force_rep
     nm = COLLIDING if colliding else NAMEMAPS[(variant // len(REPS)) % len(NAMEMAPS)]
-    forms = FORMS_RIGID if r in RIGID_REPS else FORMS_ANY
+    forms = FORMS_RIGID if r in RIGID_REPS else FORMS_FAR if r == FAR_REP else FORMS_ANY
+    stored = {}      # child -> (parent, matrix) as asked for so far (coverage counting only)
     E = lambda m: rep(m, r)       # noqa: E731
     N = lambda x: nm[x]           # noqa: E731
     ctx = {"rep": REPS[r], "names": [repr(nm[k]) for k in ("w", "a", "b", "c", "d")]}
@@ -217,6 +227,7 @@ def replay_one(SceneGraph, beh, variant, stats, colliding=False):
     g = SceneGraph(base_frame=N(base))
     for e in beh.get("init", []):
         g.update(frame_to=N(e["v"]), frame_from=N(e["u"]), matrix=np.array(E(e["m"])))
+        stored[e["v"]] = (e["u"], e["m"])
     for i, st in enumerate(beh["h"]):
         op = st["op"]
         if op == "update":
@@ -225,6 +236,11 @@ def replay_one(SceneGraph, beh, variant, stats, colliding=False):
             geo = st["g"] != "-"
             if geo:
                 kw["geometry"] = st["g"]
+            if stored.get(st["v"], (None, None))[0] == st["u"] and stored[st["v"]][1] != st["m"]:
+                hit("reupdate_of_an_existing_edge")
+                if r == FAR_REP and st["m"][0] % 4 and stored[st["v"]][1][0] == st["m"][0]:
+                    hit("reupdate_far_from_origin_small_change")
+            stored[st["v"]] = (st["u"], st["m"])
             u, v = N(st["u"]), N(st["v"])
             # the same abstract update through the different public entry points
             opts = ["update", "update", "edgelist"]
@@ -254,6 +270,7 @@ def replay_one(SceneGraph, beh, variant, stats, colliding=False):
                 buf.fill(77)
         elif op == "remove":
             g.transforms.remove_node(N(st["u"]))
+            stored = {c: pm for c, pm in stored.items() if c != st["u"] and pm[0] != st["u"]}
         elif op == "remove_geometry":
             g.remove_geometries(st["g"] if rnd.randrange(2) else [st["g"]])
         elif op == "set_base":
@@ -362,10 +379,11 @@ def _replay_chunk(chunk):
     out = []
     n_get = 0
     stats = {}
-    for idx, beh, colliding in chunk:
+    for idx, beh, mode in chunk:
+        colliding = mode == 1
         if isinstance(beh, str):
             beh = json.loads(beh)   # behaviours are kept as compact JSON text (memory: 150 k of them in thorough)
-        f = replay_one(SceneGraph, beh, idx + 7919 * seed(), stats, colliding)
+        f = replay_one(SceneGraph, beh, idx + 7919 * seed(), stats, colliding, FAR_REP if mode == 2 else None)
         n_get += sum(1 for s in beh["h"] if s["op"] == "get") + len(beh["sweep"])
         if f:
             out.append({"behaviour": beh["h"], "init": beh.get("init", []), "fail": f[0], "colliding_names": colliding})
@@ -632,6 +650,9 @@ def main(argv):
     # (d) from a pre-built chain world -> a -> b -> c: every history of length 3 (and a deeper state cover in
     #     thorough), so that "multi-hop query, re-parent, query again" needs no set-up steps
     jobs.append(("chain", cfg(depth=3, view=False, shape="chain", invs="INVARIANT EmitLeaf\n" + EMIT_GP), dict(workers=1, timeout=TLC_TIMEOUT), True))
+    # (e) re-updates of one edge by a matrix with the same rotation and a slightly different translation (3 frames,
+    #     every history of length 3); replayed with the frames ~10^8 away from the origin for two thirds of them
+    jobs.append(("samek", cfg(nodes="Nodes3", gens="GensK", depth=3, view=False, invs="INVARIANT EmitLeaf\n" + EMIT_GP), dict(workers=1, timeout=TLC_TIMEOUT), True))
     if not quick:
         jobs.append(("chaincover", cfg(depth=4, shape="chain", invs="INVARIANT EmitAll\n" + EMIT_GP), dict(workers=1, timeout=TLC_TIMEOUT), True))
     # spec self-tests: each seeded deviation must make TLC report GetIsPathProduct (from the chain the
@@ -664,7 +685,8 @@ def main(argv):
     behs, fam_n = [], {}
     for name, label in (("cover", f"mc with geometry + emit state cover depth={dc}"), ("leaf", "emit all histories depth=3"),
                         ("sim", f"simulate num={nsim} depth={dsim}"), ("chain", "emit all histories depth=3 from a chain"),
-                        ("chaincover", "emit state cover depth=4 from a chain")):
+                        ("chaincover", "emit state cover depth=4 from a chain"),
+                        ("samek", "emit all histories depth=3, 3 frames, same-rotation matrices")):
         if name not in done:
             continue
         r, lines = done[name]
@@ -683,12 +705,16 @@ def main(argv):
 
     # 3. replay
     t0 = time.time()
-    work = [(i, b, False) for i, b in enumerate(behs)]
+    n_samek = fam_n["samek"]
+    if n_samek < 1000:
+        raise MachineryError(f"emission too small: samek={n_samek}")
+    k0 = len(behs) - n_samek
+    work = [(i, b, 0 if i < k0 or i % 3 == 0 else 2) for i, b in enumerate(behs)]
     # the histories from the chain once more under frame names whose Python hashes collide
     c0 = n_cover + n_leaf + n_sim
-    ncol = min(fam_n["chain"], 3000 if quick else 20000)
+    ncol = min(fam_n["chain"], 1500 if quick else 20000)
     step = max(1, fam_n["chain"] // ncol)
-    work += [(i, behs[i], True) for i in range(c0, c0 + fam_n["chain"], step)]
+    work += [(i, behs[i], 1) for i in range(c0, c0 + fam_n["chain"], step)]
     results = pmap(_replay_chunk, work)
     n_get = sum(r[1] for r in results)
     n_beh = sum(r[2] for r in results)
@@ -712,6 +738,10 @@ def main(argv):
     for k in need:
         if stats.get(k, 0) < floor:
             raise MachineryError("replay variant %s carried only %d of %d behaviours" % (k, stats.get(k, 0), n_beh))
+    # magnitudes: an edge of size ~10^8 replaced by one that differs by a few units in a few entries
+    if stats.get("reupdate_of_an_existing_edge", 0) < 1000 or stats.get("reupdate_far_from_origin_small_change", 0) < 200:
+        raise MachineryError("re-updates of an existing edge came out nearly empty: %d, far from the origin with a small change: %d"
+                             % (stats.get("reupdate_of_an_existing_edge", 0), stats.get("reupdate_far_from_origin_small_change", 0)))
     cov["replay_variants"] = dict(sorted(stats.items()))
     for f, dev in extra_unknown_frames(SceneGraph):
         V.violation(f["clause"], f, dev)
@@ -723,7 +753,8 @@ def main(argv):
         "states": states, "transitions": trans,
         "traces_validated_against_impl": n_beh + n_rec,
         "gets_compared": n_get,
-        "behaviours": {"state_cover": n_cover, "all_histories_depth3": n_leaf, "simulated": n_sim, "from_chain": n_chain},
+        "behaviours": {"state_cover": n_cover, "all_histories_depth3": n_leaf, "simulated": n_sim, "from_chain": n_chain,
+                       "same_rotation_reupdates_3_frames": n_samek},
         "exhaustive": True,
         "replay_wall_s": round(time.time() - t0, 1),
         "cpu_s": {"children": round(ru_c.ru_utime + ru_c.ru_stime, 1), "self": round(ru_s.ru_utime + ru_s.ru_stime, 1)},
@@ -731,12 +762,13 @@ def main(argv):
                     {k: own_events[len(own_events) // 2][k] for k in ("fam", "how", "a_repr", "b_repr", "par")}],
     })
     return V.finish("model_checking", cov, assumptions=[
-        "TLC's matrices range over SE(2,Z); replayed through six faithful 4x4 representations (rotation about z / x / y by "
-        "multiples of 90 degrees with integer translations, a mirrored one, conjugates by diag(2,1,4) and by an integer shear)",
+        "TLC's matrices range over SE(2,Z); replayed through seven faithful 4x4 representations (rotation about z / x / y by "
+        "multiples of 90 degrees with integer translations, a mirrored one, conjugates by diag(2,1,4), by an integer shear and "
+        "by a translation of 2^27 - frames ~10^8 away from the origin)",
         "forests of at most 5 named frames for the TLC-emitted histories (depths as stated); 20-39 frames and chains of "
         "64-1100 frames for the driver's random histories with arbitrary float matrices (term named by TLC, evaluated by numpy, "
         "atol 1e-6 x magnitude)",
-        "float comparison atol 1e-9 for the replay (quaternion / axis-angle presentations are not bit exact)",
+        "float comparison atol 1e-10 x magnitude of the expected matrix for the replay (quaternion / axis-angle presentations are not bit exact)",
         "near-rigid matrices (|M M^T - I| < 1e-5) are not used: SceneGraph(repair_rigid=1e-5) re-orthonormalises them by design",
     ])
 
